@@ -373,6 +373,9 @@ def run(pm, ctx):
                      'the generated attribute takes nullability from the field type itself, not '
                      'through aliases (shared with C08-R6)')
 
+    ctx.import_rules(pm, 'C02', {'C02-R12'}, 'C10-R11',
+                     'the unwrap helpers of the IR peel exactly the wrappers their names say '
+                     '(shared with C02-R12)')
     from ..effects import run_decisions
     from ..ownership import OWN
     run_decisions(pm, ctx, 'C10-RD', OWN['C10'])
